@@ -81,6 +81,14 @@ def run(res, tier):
         cov["concurrent_close_stress"] = dict(associations=sg.get("multiclose_associations"), closers_each=8, note="brute force, no forced interleaving: a panic (double close) kills the child process and is reported as U0")
         cov["gate_scheduled"] = dict(schedule="handler returns -> Close closes done -> [gate] same client's next datagram reaches the loop -> release", runs=sg["runs"], infeasible=sg["infeasible"])
         cov["samples"] += sg["samples"][:1]
+        # shutdown while handlers are still running: judged for crashes (U0); handler goroutines that stay blocked in Close
+        # for ever (more live associations than the notification channel holds, and no loop to read it) are an observation
+        late = [e for line in open(trg) for e in json.loads(line)["hist"] if e.get("e") == "LateEnd"]
+        cov["handlers_outlive_loop"] = dict(runs=[dict(handlers=e["handlers"], stuck_in_close=e["stuckInClose"]) for e in late],
+                                            note="no crash demanded (U0); goroutines stuck in packetConn.Close after the loop has gone are reported, not judged (C09 speaks about crashes)")
+        for e in late:
+            if e["stuckInClose"]:
+                log(f"OBSERVATION udp shutdown: {e['stuckInClose']} of {e['handlers']} handler goroutines stay blocked in packetConn.Close after the server loop has returned (closeCh holds 10 notifications and nobody reads it any more)")
         bad += badg
         with open(tr, "a") as o:
             for line in open(trg):
